@@ -266,3 +266,25 @@ class ScriptedGenerator(np.random.Generator):
         g = ScriptedGenerator(0, list(self.script), self.floor)
         g.bit_generator.state = copy.deepcopy(self.bit_generator.state)
         return g
+
+
+class ForcedBitsGenerator(np.random.Generator):
+    """scheduler-controlled discrete randomness: the first `m` calls of integers() return arrays filled with `value`
+    (a legal draw of positive probability, however unlikely a run of them is), later calls are PCG64(seed)."""
+
+    def __init__(self, seed=0, m=0, value=0):
+        super().__init__(np.random.PCG64(int(seed)))
+        self.m = int(m)
+        self.value = int(value)
+        self.forced = 0
+
+    def integers(self, low, high=None, size=None, dtype=np.int64, endpoint=False):
+        ret = super().integers(low, high=high, size=size, dtype=dtype, endpoint=endpoint)
+        if self.forced < self.m:
+            self.forced += 1
+            lo, hi = (0, low) if high is None else (low, high)
+            if endpoint:
+                hi = hi + 1
+            v = min(max(self.value, lo), hi - 1)
+            return np.full_like(ret, v) if isinstance(ret, np.ndarray) else type(ret)(v)
+        return ret
